@@ -75,6 +75,17 @@ def run(rep, tier):
                 "nested": [["stm", ["expr", ["bin", "==", ["tuple", ea, I(0)], ["tuple", eb, I(0)]]]]],
                 "struct": [["stm", ["expr", ["bin", "==", ["struct", ["f", ea]], ["struct", ["f", eb]]]]]],
             }
+            # the same comparisons with the right-hand value arriving through an any-typed parameter,
+            # so that the static type of the candidate differs from the runtime type of the scrutinee
+            def via_any(body):
+                return [["fndecl", "w", [["k", "any"]], "bool", [["stm", ["return", body]]]],
+                        ["stm", ["expr", ["call", V("w"), eb]]]]
+            t, f_ = ["block", ["stm", ["expr", B(True)]]], ["block", ["stm", ["expr", B(False)]]]
+            forms["==-any"] = via_any(["expr", ["bin", "==", ea, V("k")]])
+            forms["match-any"] = via_any(["match", ea, ["aval", [V("k")], t], ["aother", f_]])
+            forms["match-struct-any"] = via_any(["match", ["struct", ["f", ea]], ["aval", [["struct", ["f", V("k")]]], t], ["aother", f_]])
+            forms["match-tuple-any"] = via_any(["match", ["tuple", ea, I(1)], ["aval", [["tuple", V("k"), I(1)]], t], ["aother", f_]])
+            forms["match-array-any"] = via_any(["match", ["array", ea], ["aval", [["array", V("k")]], t], ["aother", f_]])
             for fname, p in forms.items():
                 expect = same if fname != "!=" else not same
                 progs.append(p)
@@ -106,7 +117,7 @@ def run(rep, tier):
     rep.exhaustive = True
     mo, io = l7_programs.run_programs(rep, progs, "L4")
     for k, (fname, na, nb, ca, cb, expect) in enumerate(meta):
-        rep.count("L4." + fname)
+        rep.count("L4." + fname.split("-")[0])
         got = l7_programs.norm_impl(io[k])
         want = f"ok (b {'true' if expect else 'false'})"
         val = got.split(" :: ")[0]
